@@ -264,6 +264,9 @@ func runQueueModelCase(c *core.Case, mon QMon, tweak func(g *qGen)) *core.Result
 	res := &core.Result{}
 	r := c.R
 	cfg := genQConfig(r, 2)
+	if c.Idx%9 == 4 {
+		cfg.File.SyncMode = 3 // txfile.SyncNone
+	}
 	ps := int(cfg.File.PageSize)
 	g := qGen{Ops: 60 + r.Intn(140), WWrite: 45, WFlush: 8, WRBegin: 6, WRNext: 16, WRRead: 22, WRDone: 5, WAck: 8, WReopen: 2, WAvail: 0, WDrain: 2, MaxRandom: 3 * ps}
 	if c.Tier == "thorough" {
